@@ -6,25 +6,26 @@ import (
 )
 
 var commands = map[string]func([]string){
-	"imports":     cmdImports,
-	"cases":       cmdCases,
-	"heap":        cmdHeap,
-	"output":      cmdOutput,
-	"det":         cmdDet,
-	"corpus":      cmdCorpus,
-	"forms":       cmdForms,
-	"lits-num":    cmdLitsNum,
-	"lits-str":    cmdLitsStr,
-	"lits-tag":    cmdLitsTag,
-	"conc-sched":  cmdConcSched,
-	"conc-orders": cmdConcOrders,
-	"conc-solo":   cmdConcSolo,
-	"conc-free":   cmdConcFree,
-	"ownpost":     cmdOwnPost,
-	"system":      cmdSystem,
-	"system-twin": cmdSystemTwin,
-	"names-post":  cmdNamesPost,
-	"ownexamples": cmdOwnExamples,
+	"imports":      cmdImports,
+	"cases":        cmdCases,
+	"heap":         cmdHeap,
+	"output":       cmdOutput,
+	"det":          cmdDet,
+	"corpus":       cmdCorpus,
+	"forms":        cmdForms,
+	"lits-num":     cmdLitsNum,
+	"lits-str":     cmdLitsStr,
+	"lits-tag":     cmdLitsTag,
+	"conc-sched":   cmdConcSched,
+	"conc-orders":  cmdConcOrders,
+	"conc-solo":    cmdConcSolo,
+	"conc-free":    cmdConcFree,
+	"ownpost":      cmdOwnPost,
+	"system":       cmdSystem,
+	"system-twin":  cmdSystemTwin,
+	"system-batch": cmdSystemBatch,
+	"names-post":   cmdNamesPost,
+	"ownexamples":  cmdOwnExamples,
 }
 
 func main() {
